@@ -191,4 +191,25 @@ theorem pairwise_lt_of_sorted_nodup {k : α → Int} {l : List α}
     simp only [leInt, decide_eq_true_eq] at *
     omega
 
+/-- In a list where no two distinct positions are related by the symmetric `S`,
+    related members are equal. -/
+theorem eq_of_pairwise_not {S : α → α → Prop} (symm : ∀ a b, S a b → S b a) {l : List α}
+    (h : l.Pairwise (fun a b => ¬ S a b)) {a b : α} (ha : a ∈ l) (hb : b ∈ l) (hs : S a b) : a = b := by
+  induction l with
+  | nil => cases ha
+  | cons x xs ih =>
+    have hc := List.pairwise_cons.1 h
+    rcases List.mem_cons.1 ha with ha' | ha' <;> rcases List.mem_cons.1 hb with hb' | hb'
+    · rw [ha', hb']
+    · subst ha'; exact absurd hs (hc.1 b hb')
+    · subst hb'; exact absurd (symm _ _ hs) (hc.1 a ha')
+    · exact ih hc.2 ha' hb'
+
+theorem eq_of_nodup_map {β : Type} {f : α → β} {l : List α} (h : (l.map f).Nodup)
+    {a b : α} (ha : a ∈ l) (hb : b ∈ l) (hf : f a = f b) : a = b := by
+  have : l.Pairwise (fun a b => ¬ (f a = f b)) := by
+    have := List.pairwise_map.1 h
+    exact this
+  exact eq_of_pairwise_not (S := fun a b => f a = f b) (fun _ _ h => h.symm) this ha hb hf
+
 end Ovni.Emu.System
